@@ -219,18 +219,23 @@ def h19_job_enqueue_gap(S):
     ttl = S.int("ttl", SEC, 10 * 366 * 86400 * SEC)
     periodic = S.flag("periodic")
     period = S.int("period", SEC, 366 * 86400 * SEC)
+    # a periodic job may name its time base itself (deferred_until), before or after its creation
+    has_base = periodic and S.flag("has_deferred_until")
+    base_off = S.int("deferred_until_minus_creation", -366 * 86400 * SEC, 366 * 86400 * SEC) if has_base else 0
     clock = PinnedClock(created)
     out = {}
 
     async def main(loop):
         conn = Connection(InMemoryMessageBroker())
         await conn.connect()
-        job = Job("job", ttl=S.timedelta_us(ttl) if has_ttl else None, deferred_by=S.timedelta_us(period) if periodic else None, _connection=conn)
+        job = Job("job", ttl=S.timedelta_us(ttl) if has_ttl else None, deferred_by=S.timedelta_us(period) if periodic else None,
+                  deferred_until=S.datetime_us(created + base_off) if has_base else None, _connection=conn)
         await job.queue.declare()
         clock.set(created + gap)
         out["sent"] = await job.enqueue()
         out["job_overdue"] = job.is_overdue
         out["msg_overdue"] = out["sent"][2].is_overdue
+        out["first"] = out["sent"][2].compute_next_execution_time        # read while the harness clock is in force
 
     run_async(main, clock=clock)
     params = out["sent"][2]
@@ -238,8 +243,15 @@ def h19_job_enqueue_gap(S):
     S.check("message-timestamp-is-the-jobs-creation-time", vtime.dt_us(params.timestamp) == created)
     S.check("job-and-message-agree-on-expiry", out["job_overdue"] == out["msg_overdue"])
     if periodic:
-        first = params.compute_next_execution_time
-        S.check("first-slot-whole-periods-after-creation", (vtime.dt_us(first) - created) % period == 0)
+        first = out["first"]
+        now = created + gap
+        if has_base:
+            base = created + base_off
+            S.check("first-slot-whole-periods-after-its-time-base", (vtime.dt_us(first) - base) % period == 0,
+                    info="the first slot is not a whole number of periods after deferred_until")
+            S.check("first-slot-is-deferred_until-while-that-is-ahead", implies(base > now, vtime.dt_us(first) == base))
+        else:
+            S.check("first-slot-whole-periods-after-creation", (vtime.dt_us(first) - created) % period == 0)
 
 
 # the same arithmetic as used by the reschedule path (time base and clock are chosen by _prepare_reschedule)
